@@ -1,4 +1,5 @@
 import PcfgVerif.Model.OmenTrainer
+import PcfgVerif.Model.OmenProb
 import PcfgVerif.Drive.Omen
 /-! Driver commands for the trainer / scorer side of OMEN (C11, C18). -/
 namespace Drive.OmenTrainer
@@ -6,6 +7,9 @@ open _root_.Omen Drive.Omen
 
 structure St where
   t : TTables := { ngram := 2, entries := [], lns := [] }
+  /-- `omen_levels_count` after the third pass, and the number of passwords read -/
+  cnt : LCtr := []
+  npw : Nat := 0
 
 def parseNext : List String → Option (List (Char × Nat))
   | [] => some []
@@ -51,6 +55,23 @@ def step (st : St) : List String → St × String
       match st.t.toTables.enumLevel lvl lim with
       | some gs => (st, s!"n={gs.length}")
       | none => (st, "raise")
+    | _, _ => (st, "bad-op")
+  | "ot.third" :: pws =>
+    -- the third pass over the whole list; answer: `omen_pws_per_level.txt` (most_common order of the tally)
+    match pws.mapM parseStr with
+    | some ps =>
+      let c := st.t.levelsCount ps
+      let shown := (c.mergeSort fun a b => decide (a.2 ≥ b.2)).map fun (l, n) => s!"{showLvl l}:{n}"
+      ({ st with cnt := c, npw := ps.length }, " ".intercalate ("c" :: shown))
+    | none => (st, "bad-op")
+  | ["ot.probs", mk, ml] =>
+    -- `pcfg_omen_prob.txt` line by line: level and the bits of the double
+    match mk.toNat?, ml.toNat? with
+    | some mk, some ml =>
+      let rows := st.t.ksRows ml st.t.lns.length
+      let ks := st.t.calcKeyspaceFast rows mk ml 1
+      let file := omenProbFile sfNOps (fun a b => decide (a ≥ b)) ks st.cnt st.npw
+      (st, " ".intercalate ("p" :: file.map fun (l, q) => s!"{l}:{toHexFixed 16 (Pcfg.SF.toBits q)}"))
     | _, _ => (st, "bad-op")
   | _ => (st, "bad-op")
 
